@@ -737,7 +737,7 @@ func runC11(w *core.W) {
 	}
 	w.ExhaustivePart("every one-parameter signature (18 kinds x plain/variadic x with/without context) x every argument list of length 0..2 over 25 argument values, plus spread")
 	// 2. two-parameter signatures x argument pairs (sampled per shard), return kinds and failures
-	for i, n := 0, w.Pick(15000, 300000); i < n; i++ {
+	for i, n := 0, w.Pick(75000, 1200000); i < n; i++ {
 		sig := randSig(r)
 		na := len(sig.Params) + r.Intn(4) - 1
 		if na < 0 {
